@@ -448,7 +448,9 @@ def r4_5(repo: Repo) -> RuleResult:
                "events can be dropped or the buffer not grown on one of them", ifs[1].lineno)
     # the buffer-full trigger must fire one slot before the end (the append writes at ind, then increments)
     t = norm(ifs[1].test)
-    if t.replace(" ", "") in ("coo.ind[0]==coo.key.shape[0]-1", "coo.ind[0]>=coo.key.shape[0]-1"):
+    from .common import rel_of
+
+    if rel_of(ifs[1].test) in (("eq", frozenset(("coo.ind[0]", "coo.key.shape[0] - 1"))), ("le", "coo.key.shape[0] - 1", "coo.ind[0]")):
         rr.ok(f, "buffer-full trigger", "`%s`" % t, ifs[1].lineno)
     else:
         rr.bad(f, "buffer-full trigger", "buffer-full test is `%s`, not `coo.ind[0] == coo.key.shape[0] - 1`: the next append can write past the end" % t, ifs[1].lineno)
